@@ -179,9 +179,21 @@ def report(prop: str, tier: str, seed: int, res: Result, wall: float) -> int:
 _WORKER_FN: Optional[Callable] = None
 
 
+def _stack_dump_on_usr1():
+    """kill -USR1 <pid> prints every thread's Python stack to stderr (diagnosing a slow or stuck exploration)."""
+    try:
+        import faulthandler
+        import signal
+
+        faulthandler.register(signal.SIGUSR1, all_threads=True)
+    except Exception:
+        pass
+
+
 def _init_worker(fn):  # pragma: no cover - runs in child
     global _WORKER_FN
     _WORKER_FN = fn
+    _stack_dump_on_usr1()
 
 
 def _call(chunk):  # pragma: no cover - runs in child
